@@ -651,22 +651,24 @@ static void alloc_history (const char *fmtname, int mode, unsigned mask, const i
 static void run_alloc_histories (void)
 {	static const char *fmts [] = { "wav/pcm_16/file", "wav/float/file", "aiff/pcm_16/file", "aiff/float/file", "caf/pcm_16/file", "caf/alac_16/file", "rf64/pcm_16/file", "wavex/pcm_24/file", NULL } ;
 	static const int modes [2] = { SFM_WRITE, SFM_RDWR } ;
+	/* one case per history, so that a violation is replayable from its own spec */
 	for (int fi = 0 ; fmts [fi] ; fi++)
 		for (int mi = 0 ; mi < 2 ; mi++)
 			for (int with_io = 0 ; with_io < 2 ; with_io++)
-			{	if (vl_case ("C16 alloc-subsets fmt=%s mode=%d io=%d", fmts [fi], modes [mi], with_io))
-				{	long n = 0 ;
-					for (unsigned mask = 0 ; mask < (1u << A_N) ; mask++) { vl_subcase ("C16 A fmt=%s mode=%d io=%d mask=0x%x", fmts [fi], modes [mi], with_io, mask) ; alloc_history (fmts [fi], modes [mi], mask, NULL, 0, with_io) ; n ++ ; }
-					vl_root_count ("alloc-histories") ; vl_count_extra (0, n) ; vl_count_states (n) ; vl_end (1, n) ;
-					}
-				if (vl_case ("C16 alloc-orders fmt=%s mode=%d io=%d", fmts [fi], modes [mi], with_io))
-				{	long n = 0 ;
-					for (int a = 0 ; a < A_N ; a++) for (int b = 0 ; b < A_N ; b++) for (int c = 0 ; c < A_N ; c++)
-					{	int order [3] = { a, b, c } ; if (a == b || b == c || a == c) continue ;
-						vl_subcase ("C16 O fmt=%s mode=%d io=%d order=%s,%s,%s", fmts [fi], modes [mi], with_io, a_names [a], a_names [b], a_names [c]) ;
-						alloc_history (fmts [fi], modes [mi], 0, order, 3, with_io) ; n ++ ;
+			{	for (unsigned mask = 0 ; mask < (1u << A_N) ; mask++)
+				{	if (! vl_peek ()) { vl_skip (1) ; continue ; }
+					if (vl_case ("C16 A fmt=%s mode=%d io=%d mask=0x%x", fmts [fi], modes [mi], with_io, mask))
+					{	alloc_history (fmts [fi], modes [mi], mask, NULL, 0, with_io) ;
+						vl_root_count ("alloc-histories") ; vl_count_extra (0, 1) ; vl_count_states (1) ; vl_end (1, mask) ;
 						}
-					vl_root_count ("alloc-histories") ; vl_count_extra (0, n) ; vl_count_states (n) ; vl_end (1, n) ;
+					}
+				for (int a = 0 ; a < A_N ; a++) for (int b = 0 ; b < A_N ; b++) for (int c = 0 ; c < A_N ; c++)
+				{	int order [3] = { a, b, c } ; if (a == b || b == c || a == c) continue ;
+					if (! vl_peek ()) { vl_skip (1) ; continue ; }
+					if (vl_case ("C16 O fmt=%s mode=%d io=%d order=%s,%s,%s", fmts [fi], modes [mi], with_io, a_names [a], a_names [b], a_names [c]))
+					{	alloc_history (fmts [fi], modes [mi], 0, order, 3, with_io) ;
+						vl_root_count ("alloc-histories") ; vl_count_extra (0, 1) ; vl_count_states (1) ; vl_end (1, a * 100 + b * 10 + c) ;
+						}
 					}
 				}
 }
@@ -675,6 +677,7 @@ static void run_alloc_histories (void)
 
 static long probes_done ;
 
+static const unsigned char *probe_rsrc ; static sf_count_t probe_rsrc_len = -1 ;	/* >= 0: resource fork to use instead of the seed's */
 static void open_probe (const unsigned char *img, sf_count_t len, int mode, int route)
 {	SF_INFO info ; SNDFILE *sf ; int rc = 0 ;
 	clear_plan () ; ROUTE = route ; begin_history () ;
@@ -682,7 +685,8 @@ static void open_probe (const unsigned char *img, sf_count_t len, int mode, int 
 	if (route == R_VIO)
 	{	md_set (&dev, img, len) ; dev.fault = NULL ; dev.log_on = 0 ; dev.budget = 20000 + 64 * ((long) len + 60000) ; sf = md_open (&dev, mode, &info) ; }
 	else
-	{	scratch_clean () ; scratch_paths () ; put_file (scratch_path, img, len) ; if (seed_rsrc) put_file (scratch_rsrc, seed_rsrc, seed_rsrc_len) ;
+	{	scratch_clean () ; scratch_paths () ; put_file (scratch_path, img, len) ;
+		if (probe_rsrc_len >= 0) put_file (scratch_rsrc, probe_rsrc, probe_rsrc_len) ; else if (seed_rsrc) put_file (scratch_rsrc, seed_rsrc, seed_rsrc_len) ;
 		splan.budget = 20000 + 64 * ((long) len + 60000) ; sio_set_fault (sys_hook, NULL) ;
 		INLIB (sf = sf_open (scratch_path, mode, &info)) ;
 		}
@@ -694,46 +698,32 @@ static void open_probe (const unsigned char *img, sf_count_t len, int mode, int 
 	if (route == R_PATH) sio_set_fault (NULL, NULL) ;
 	after_close_checks (rc, 0, sf ? "after sf_close of a damaged file" : "after the refused open of a damaged file") ;
 	probes_done ++ ; vl_count_transitions (1) ;
+	probe_rsrc_len = -1 ;
 }
 
-static void malformed_sweep (void)
-{	static const int modes [2] = { SFM_READ, SFM_RDWR } ; unsigned char *img = malloc (seed_len + 1) ;
-	sf_count_t hdr = seed_dataoffset + 16 ; int nvals = vl_opts.thorough ? 4 : 2 ;
-	if (hdr > seed_len) hdr = seed_len ; if (hdr > 2048) hdr = 2048 ;
-	/* every truncation length */
+static void malformed_sweep (void)	/* SD2 only (needs a path): the other formats get the C03 families */
+{	static const int modes [2] = { SFM_READ, SFM_RDWR } ; unsigned char *img = malloc (seed_rsrc_len + 1) ; int nvals = vl_opts.thorough ? 4 : 2 ;
+	if (! seed_rsrc || seed_rsrc_len <= 0) { free (img) ; return ; }
+	/* SD2's header is its resource fork: every truncation and every byte of the fork, the data fork left as written */
 	for (int mi = 0 ; mi < 2 ; mi++)
-		for (int route = 0 ; route < R_NROUTES ; route++)
-		{	sf_count_t maxn = route == R_VIO ? seed_len : hdr ;
-			if (F->needs_path && route == R_VIO) continue ;
-			if (route == R_PATH && mi == 1 && ! vl_opts.thorough) continue ;
-			for (sf_count_t n0 = 0 ; n0 <= maxn ; n0 += 256)
-				if (vl_case ("C16 M fmt=%s ch=%d route=%s mode=%d truncated-to=%lld..%lld", F->name, CH, route_names [route], modes [mi], (long long) n0, (long long) (n0 + 255 < maxn ? n0 + 255 : maxn)))
-				{	long before = probes_done ;
-					for (sf_count_t n = n0 ; n <= maxn && n < n0 + 256 ; n++)
-					{	vl_subcase ("C16 M1 fmt=%s ch=%d route=%s mode=%d truncated-to=%lld", F->name, CH, route_names [route], modes [mi], (long long) n) ;
-						memcpy (img, seed, n) ; open_probe (img, n, modes [mi], route) ;
-						}
-					vl_root_count (F->name) ; vl_count_extra (1, probes_done - before) ; vl_count_states (probes_done - before) ; vl_end (1, probes_done - before) ;
-					}
+		for (sf_count_t n = 0 ; n <= seed_rsrc_len ; n++)
+		{	if (! vl_peek ()) { vl_skip (1) ; continue ; }
+			if (vl_case ("C16 M fmt=%s ch=%d route=path mode=%d resource-fork-truncated-to=%lld", F->name, CH, modes [mi], (long long) n))
+			{	memcpy (img, seed_rsrc, n) ; probe_rsrc = img ; probe_rsrc_len = n ; open_probe (seed, seed_len, modes [mi], R_PATH) ;
+				vl_root_count (F->name) ; vl_count_extra (1, 1) ; vl_count_states (1) ; vl_end (1, n) ;
+				}
 			}
-	/* every header byte replaced */
 	for (int mi = 0 ; mi < (vl_opts.thorough ? 2 : 1) ; mi++)
-		for (int route = 0 ; route < R_NROUTES ; route++)
-		{	if (F->needs_path && route == R_VIO) continue ;
-			if (route == R_PATH && ! F->needs_path && ! vl_opts.thorough) continue ;
-			for (sf_count_t p0 = 0 ; p0 < hdr ; p0 += 128)
-				if (vl_case ("C16 B fmt=%s ch=%d route=%s mode=%d byte=%lld..%lld", F->name, CH, route_names [route], modes [mi], (long long) p0, (long long) (p0 + 127 < hdr ? p0 + 127 : hdr - 1)))
-				{	long before = probes_done ;
-					for (sf_count_t q = p0 ; q < hdr && q < p0 + 128 ; q++)
-						for (int v = 0 ; v < nvals ; v++)
-						{	unsigned char nb = v == 0 ? 0x00 : v == 1 ? 0xFF : v == 2 ? seed [q] ^ 0x01 : seed [q] ^ 0x80 ;
-							if (nb == seed [q]) continue ;
-							vl_subcase ("C16 B1 fmt=%s ch=%d route=%s mode=%d byte=%lld value=0x%02x", F->name, CH, route_names [route], modes [mi], (long long) q, nb) ;
-							memcpy (img, seed, seed_len) ; img [q] = nb ; open_probe (img, seed_len, modes [mi], route) ;
-							}
-					vl_root_count (F->name) ; vl_count_extra (1, probes_done - before) ; vl_count_states (probes_done - before) ; vl_end (1, probes_done - before) ;
+		for (sf_count_t q = 0 ; q < seed_rsrc_len ; q++)
+			for (int v = 0 ; v < nvals ; v++)
+			{	unsigned char nb = v == 0 ? 0x00 : v == 1 ? 0xFF : v == 2 ? seed_rsrc [q] ^ 0x01 : seed_rsrc [q] ^ 0x80 ;
+				if (nb == seed_rsrc [q]) continue ;
+				if (! vl_peek ()) { vl_skip (1) ; continue ; }
+				if (vl_case ("C16 B fmt=%s ch=%d route=path mode=%d resource-fork-byte=%lld value=0x%02x", F->name, CH, modes [mi], (long long) q, nb))
+				{	memcpy (img, seed_rsrc, seed_rsrc_len) ; img [q] = nb ; probe_rsrc = img ; probe_rsrc_len = seed_rsrc_len ; open_probe (seed, seed_len, modes [mi], R_PATH) ;
+					vl_root_count (F->name) ; vl_count_extra (1, 1) ; vl_count_states (1) ; vl_end (1, q * 256 + nb) ;
 					}
-			}
+				}
 	free (img) ;
 }
 
@@ -822,29 +812,22 @@ static void call_history (int mode, const int *ops, int nops)
 
 static void run_call_histories (void)
 {	static const int modes [3] = { SFM_READ, SFM_WRITE, SFM_RDWR } ; int depth = vl_opts.thorough ? 4 : 3 ;
+	/* one case per history (length 0 = close at once), so that a violation is replayable from its own spec */
 	for (int mi = 0 ; mi < 3 ; mi++)
-		for (int first = -1 ; first < H_NOPS ; first++)
-			if (vl_case ("C16 D fmt=%s ch=%d mode=%d first=%s depth<=%d", F->name, CH, modes [mi], first < 0 ? "(close at once)" : h_names [first], depth))
-			{	long before = histories_done ; int ops [4] ;
-				snprintf (RS, sizeof (RS), "%s|call-history", rt_fam (F)) ;
-				if (first < 0) { vl_subcase ("C16 D1 fmt=%s mode=%d ops=", F->name, modes [mi]) ; call_history (modes [mi], ops, 0) ; }
-				else
-				{	long total = 1 ; for (int d = 1 ; d < depth ; d++) total *= H_NOPS ;
-					ops [0] = first ;
-					for (int len = 1 ; len <= depth ; len++)
-					{	long cnt = 1 ; for (int d = 1 ; d < len ; d++) cnt *= H_NOPS ;
-						for (long c = 0 ; c < cnt ; c++)
-						{	long r = c ; char desc [120] = "" ;
-							for (int d = 1 ; d < len ; d++) { ops [d] = r % H_NOPS ; r /= H_NOPS ; }
-							for (int d = 0 ; d < len ; d++) { strncat (desc, h_names [ops [d]], sizeof (desc) - strlen (desc) - 2) ; strncat (desc, ",", sizeof (desc) - strlen (desc) - 1) ; }
-							vl_subcase ("C16 D1 fmt=%s mode=%d ops=%s", F->name, modes [mi], desc) ;
-							call_history (modes [mi], ops, len) ;
-							}
-						}
-					(void) total ;
+		for (int len = 0 ; len <= depth ; len++)
+		{	long cnt = 1 ; for (int d = 0 ; d < len ; d++) cnt *= H_NOPS ;
+			for (long c = 0 ; c < cnt ; c++)
+			{	long r = c ; char desc [120] = "" ; int ops [4] = { 0, 0, 0, 0 } ;
+				if (! vl_peek ()) { vl_skip (1) ; continue ; }
+				for (int d = 0 ; d < len ; d++) { ops [d] = r % H_NOPS ; r /= H_NOPS ; }
+				for (int d = 0 ; d < len ; d++) { strncat (desc, h_names [ops [d]], sizeof (desc) - strlen (desc) - 2) ; strncat (desc, ",", sizeof (desc) - strlen (desc) - 1) ; }
+				if (vl_case ("C16 D fmt=%s ch=%d mode=%d ops=%s", F->name, CH, modes [mi], len ? desc : "(close at once)"))
+				{	snprintf (RS, sizeof (RS), "%s|call-history", rt_fam (F)) ;
+					call_history (modes [mi], ops, len) ;
+					vl_root_count ("call-histories") ; vl_count_extra (2, 1) ; vl_count_states (1) ; vl_end (1, vl_hash_u64 (c, len)) ;
 					}
-				vl_root_count ("call-histories") ; vl_count_extra (2, histories_done - before) ; vl_count_states (histories_done - before) ; vl_end (1, histories_done - before) ;
 				}
+			}
 }
 
 /* ---------------------------------------------------------------- driver */
